@@ -49,6 +49,7 @@ TNext ==
         \/ a.a = "restart" /\ RestartSidecar(a.i) /\ Matches /\ Consume
         \/ a.a = "shrink" /\ ShrinkByOne /\ Matches /\ Consume
         \/ a.a = "recreate" /\ RecreatePod(a.i) /\ Matches /\ Consume
+        \/ a.a = "place" /\ ForeignUpdate(a.i, {[t |-> a.place[k].t, state |-> a.place[k].state] : k \in DOMAIN a.place}) /\ Matches /\ Consume
         \/ a.a \in {"add", "remove", "size", "alive"} /\ EnvStep(a) /\ Matches /\ Consume
         \/ a.a = "noop" /\ UNCHANGED allvars /\ Matches /\ Consume
   \/ CycleStep /\ UNCHANGED <<tr, l>>
